@@ -2374,7 +2374,7 @@ FINDINGS = [
     {"status": "fixed", "key": "intros:expansion-rejected:InvalidDerivationException", "commit": "aa633e8",
      "what": "intros args=[?m. n = 2 * m] prevs=[|- ?m. n = 2 * m, |- _VAR m, n = 2 * m |- n = 2 * m, |- (%m. n = 2 * m) n]: the nested "
              "apply_theorem exE step evaluates (premises matched up to beta) but its expansion raises, so the checker rejects the expansion of intros"},
-    {"status": "fixed", "key": "verit_or:expansion-never-produced", "commit": "fixes/C04-12-verit_or.patch",
+    {"status": "fixed", "key": "verit_or:expansion-never-produced", "commit": "6f6fccd",
      "what": "verit_or args=(a, false) prevs=[|- a | false]: eval reports |- a | false but get_proof_term returns the cited premise itself, which "
              "ProofTerm.export refuses (export: atom): no expansion on any input on which eval succeeds"},
     {"status": "fixed", "key": "verit_not_implies1:hypotheses-added:premise-hypotheses-missing-in-eval", "commit": "f582d63",
